@@ -38,9 +38,23 @@ pub fn mk_block(n_tx: u8, n_in: u8, n_out: u8, with_addr: bool) -> Block {
 // the unwind bound (it does not decide the slice iterator's `ptr == end`) and formats every byte
 fn stub_hex(_d: &[u8]) -> String { String::new() }
 
+// built field by field on zeroed memory (not a struct literal): still compiles when a change adds a field
 fn mk_dump(cap: usize) -> CsvDump {
     let mk = |fd: usize| BufWriter::with_capacity(cap, gfs::File::ghost(fd));
-    CsvDump { dump_folder: PathBuf::new() /* empty: [measured] PathBuf::join on a non-empty base runs std's component parser over heap bytes and dominates symbolic execution */, block_writer: mk(3), tx_writer: mk(4), txin_writer: mk(5), txout_writer: mk(6), start_height: 0, tx_count: 0, in_count: 0, out_count: 0 }
+    unsafe {
+        let mut x = core::mem::MaybeUninit::<CsvDump>::zeroed();
+        let p = x.as_mut_ptr();
+        core::ptr::write(core::ptr::addr_of_mut!((*p).dump_folder), PathBuf::new());
+        core::ptr::write(core::ptr::addr_of_mut!((*p).block_writer), mk(3));
+        core::ptr::write(core::ptr::addr_of_mut!((*p).tx_writer), mk(4));
+        core::ptr::write(core::ptr::addr_of_mut!((*p).txin_writer), mk(5));
+        core::ptr::write(core::ptr::addr_of_mut!((*p).txout_writer), mk(6));
+        core::ptr::write(core::ptr::addr_of_mut!((*p).start_height), 0u64);
+        core::ptr::write(core::ptr::addr_of_mut!((*p).tx_count), 0u64);
+        core::ptr::write(core::ptr::addr_of_mut!((*p).in_count), 0u64);
+        core::ptr::write(core::ptr::addr_of_mut!((*p).out_count), 0u64);
+        x.assume_init()
+    }
 }
 
 // Rows are the constant 2-byte text and the buffers hold 4 bytes, so data is buffered in on_block,
@@ -228,4 +242,32 @@ fn c02_csv_names() {
     }
     kani::cover!(si == 3 && ei == 3, "multi-digit heights");
     core::mem::forget(cb);
+}
+
+// C01 block_rows: one row per block / transaction / input / output, totals equal the rows written.
+// Constant rows (2 bytes each); the row *text* with real formatting is the thorough-tier c02_csv_names / c07_unspent_row.
+//@ id=C01 tier=quick name=c01_rows_2_2_2 timeout=900 role=block_rows bound=2-blocks-x-2-txs-x-2-inputs-x-2-outputs,constant-rows fn=CsvDump::on_block,CsvDump::on_complete
+#[kani::proof]
+#[kani::stub(std::io::Error::is_interrupted, crate::verif_models::fs::stub_not_interrupted)]
+#[kani::stub(<std::io::Error as std::error::Error>::source, crate::verif_models::fs::stub_no_source)]
+#[kani::stub(<std::io::Error as std::error::Error>::cause, crate::verif_models::fs::stub_no_cause)]
+#[kani::stub(crate::common::utils::arr_to_hex, stub_hex)]
+#[kani::unwind(5)]
+fn c01_rows_2_2_2() {
+    unsafe { fmtm::CONST_ROWS.v = true; }
+    let mut cb = mk_dump(256);
+    let block = mk_block(2, 2, 2, true);
+    match cb.on_block(&block, 0) { Ok(()) => {}, Err(e) => { core::mem::forget(e); assert!(false, "C01:on_block_ok"); } }
+    match cb.on_block(&block, 1) { Ok(()) => {}, Err(e) => { core::mem::forget(e); assert!(false, "C01:on_block_ok"); } }
+    assert!(cb.tx_count == 4 && cb.in_count == 8 && cb.out_count == 8, "C01:totals_equal_rows_processed");
+    match cb.on_complete(1) { Ok(()) => {}, Err(e) => { core::mem::forget(e); assert!(false, "C01:completion_ok"); } }
+    unsafe {
+        assert!(gfs::ACCEPTED.v[3] == 2 * 2, "C01:one_row_per_block");
+        assert!(gfs::ACCEPTED.v[4] == 2 * 4, "C01:one_row_per_transaction");
+        assert!(gfs::ACCEPTED.v[5] == 2 * 8, "C01:one_row_per_input");
+        assert!(gfs::ACCEPTED.v[6] == 2 * 8, "C01:one_row_per_output");
+    }
+    kani::cover!(true, "evaluated");
+    core::mem::forget(cb);
+    core::mem::forget(block);
 }
